@@ -636,7 +636,7 @@ func exhaustiveSubspaces(prop, tier string) []string {
 	switch prop {
 	case "C01":
 		if th {
-			return []string{"every index 0..2^h-1 signed/validated plus the refused attempt at 2^h: stub leaves h in {4,6,8,10,12,14,16,18} x 3 hash functions; real leaves h in {4,6,8,10} x 3 hash functions", "every single forward jump i -> j (0 <= i <= j < 2^h), path checked at j..j+3 and at the last index: stub leaves h in {4,6,8}"}
+			return []string{"every index 0..2^h-1 signed/validated plus the refused attempt at 2^h: stub leaves h in {4,6,...,20} x 3 hash functions and h = 22 with one hash function (by signing up to h = 14, by unit SetIndex steps above); real leaves h in {4,6,8,10} x 3 hash functions", "every single forward jump i -> j (0 <= i <= j < 2^h), path checked at j..j+3 and at the last index: stub leaves h in {4,6,8}"}
 		}
 		return []string{"every index 0..2^h-1 signed/validated plus the refused attempt at 2^h: stub leaves h in {4,6,8,10,12,14} x 3 hash functions; real leaves h in {4,6} x 3 hash functions", "every single forward jump i -> j (0 <= i <= j < 2^h), path checked at j..j+3 and at the last index: stub leaves h in {4,6}"}
 	case "C02":
